@@ -64,7 +64,7 @@ MULTI_SHARED = [(["xy_ab", "xy_ac"], ("y-abs-rho", [0, 1])), (["xy_ab", "idx_ad"
 
 def single_alphabet(w):
     p0, p1 = w.par_names[0], w.par_names[1]
-    ops = [("fix", p0), ("fix", p1), ("rel", p0), ("rel", p1), ("con", "simple"), ("con", "matrix-cov"), ("set", "P1"), ("fit",)]
+    ops = [("fix", p0), ("fix", p1), ("rel", p0), ("rel", p1), ("con", "simple"), ("con", "matrix-cov"), ("con", "matrix-scales"), ("set", "P1"), ("fit",)]
     if len(w.par_names) >= 3:
         ops.append(("con", "matrix3"))
         ops.append(("fix", w.par_names[2]))
